@@ -351,11 +351,8 @@ func (g *Gen) switchStmt(o *out, sc *Scope, depth int) {
 		}
 		if len(vals) == 0 {
 			// a non-constant case expression
-			e, isConst := g.expr2(t, sc, 1)
-			vals = []string{e}
-			if isConst || strings.HasPrefix(vals[0], t.Name+"(") || strings.HasPrefix(vals[0], "\"") {
-				vals[0] = "id(" + vals[0] + ")"
-			}
+			// (always through id(): a constant expression would be checked for duplicates)
+			vals = []string{"id(" + g.expr(t, sc, 1) + ")"}
 		}
 		o.line("case %s:", strings.Join(vals, ", "))
 		g.caseBody(o, c, depth, i < n-1 || (defAt == n))
